@@ -170,8 +170,16 @@ def check_overdue(ts, ttl, now, out, stats, fps):
     from rv.sim.clock import pin
 
     expected = ttl is not None and now > ts + ttl
+    from repid.data._parameters import DelayProperties, RetriesProperties
+
+    # (what else a message carries - a scheduled time behind or ahead of its timestamp, a period, attempts made - has no say)
+    shift = timedelta(seconds=((ts.microsecond % 7) - 2) * 37.5)
     objs = {
         "Parameters": Parameters(timestamp=ts, ttl=ttl),
+        "Parameters+next": Parameters(timestamp=ts, ttl=ttl, delay=DelayProperties(next_execution_time=ts + shift + (ttl or timedelta(0)) / 2)),
+        "Parameters+next_far": Parameters(timestamp=ts, ttl=ttl, delay=DelayProperties(defer_by=timedelta(hours=1), next_execution_time=now + timedelta(seconds=1))),
+        "Parameters+until": Parameters(timestamp=ts, ttl=ttl, delay=DelayProperties(delay_until=now - timedelta(seconds=3)), retries=RetriesProperties(max_amount=3, already_tried=2)),
+        "Parameters.decoded": Parameters.decode(Parameters(timestamp=ts, ttl=ttl, delay=DelayProperties(next_execution_time=now)).encode()),
         "ArgsBucket": ArgsBucket(data="x", timestamp=ts, ttl=ttl),
         "ResultBucket": ResultBucket(data="x", started_when=1, finished_when=2, timestamp=ts, ttl=ttl),
     }
